@@ -551,7 +551,7 @@ Fixpoint canon (f : frame) : frame :=
   | _ => f
   end.
 Definition canon_reply (name : bytes) (f : frame) : frame :=
-  let f := canon f in
+  let f := canon_streams name (canon f) in
   if beq name (bs "TTL") || beq name (bs "PTTL") then
     match f with FInt n => if 0 <? n then FInt 1 else f | _ => f end
   else f.
